@@ -319,6 +319,14 @@ def run(ctx, scale=1.0):
                 if isinstance(s, dict):
                     check_case(drv, {**s, "default": d}, [], out, stats)
         check_case(drv, False, [], out, stats)
+        # numeric defaults far from 1 under a float multipleOf (valid and invalid ones): still a default, never an error
+        for m in (0.01, 0.5, 0.1, 2.5, 3):
+            for d in (1e26, 10 ** 30, 1e22, 0.07, 7, 2 ** 60 + 1, -1e25, 12345678901234567890123456789012):
+                for typ in ("number", None):
+                    leaf = {"multipleOf": m, "default": d, **({"type": typ} if typ else {})}
+                    check_case(drv, leaf, [], out, stats)
+                    check_case(drv, {"type": "object", "title": "Num", "properties": {"n": leaf, "other": {"type": "string"}}}, [{}, {"other": "s"}], out, stats)
+                    check_case(drv, {"properties": {"n": leaf}}, [{}], out, stats)
         for _ in range(int(n / 2)):
             dsl_case(drv, rng, out, stats)
         for _ in range(int(n / 4)):
